@@ -880,7 +880,38 @@ def run_case(case, rec, mon=None):
                     rec.count("package_modules_imported_before_the_registry_walk")
                 except Exception as e:
                     rec.note("module %s not importable here: %r" % (m.name, e))
-        registry_part(mon, rec)
+        if case.get("cwd_files"):
+            # the same walk in a working directory that holds files named like the aliases (a feature directory "fbank", a list "mel",
+            # a note "hamming"): a string handed to the factory is an alias, whatever the file system holds under that name
+            import json as _json
+
+            here = os.getcwd()
+            d = tempfile.mkdtemp(prefix="c08cwd_")
+            try:
+                for path in FAMILIES:
+                    fam = family(path)
+                    pairs = [(a, c) for c in walk(fam) for a in sorted(names_of(c.__dict__.get("aliases") or ()))]
+                    noarg = [a for a, c in pairs if MINIMAL.get(c.__name__) == {}]
+                    for k, (a, c) in enumerate(pairs):
+                        if not a or "/" in a or os.path.exists(os.path.join(d, a)):
+                            continue
+                        others = [b for b in noarg if b not in names_of(c.__dict__.get("aliases") or ())]
+                        with open(os.path.join(d, a), "w") as fh:
+                            if others and k % 3 != 2:
+                                _json.dump({"name": others[k % len(others)]}, fh)  # a valid configuration - of something else
+                            elif k % 2:
+                                fh.write("utt1 /data/utt1.wav\n")
+                            else:
+                                _json.dump(others[k % len(others)] if others else a, fh)
+                        rec.count("files_named_like_an_alias_in_the_working_directory")
+                os.chdir(d)
+                registry_part(mon, rec)
+                factory_part(mon, rec)
+            finally:
+                os.chdir(here)
+                shutil.rmtree(d, ignore_errors=True)
+        else:
+            registry_part(mon, rec)
     elif kind == "factory":
         factory_part(mon, rec)
     elif kind == "twins":
@@ -908,7 +939,7 @@ def run_case(case, rec, mon=None):
 
 def plan(tier, seed):
     q = tier == "quick"
-    cases = [{"kind": "registry"}, {"kind": "factory"}, {"kind": "registry", "all_modules": True}]
+    cases = [{"kind": "registry"}, {"kind": "factory"}, {"kind": "registry", "all_modules": True}, {"kind": "registry", "cwd_files": True}]
     cases += [{"kind": "scenario", "name": n} for n in DIRECTED]
     cases += [{"kind": "scenario", "idx": i, "seed": seed} for i in range(120 if q else 1500)]
     cases += [{"kind": "tree", "idx": i, "seed": seed} for i in range(600 if q else 6000)]
